@@ -1664,3 +1664,9 @@ mutant("c03-retry-dequeue-on-every-failure", "C03", "C03-D5", "client_packet_que
 			pq.mu.Unlock()
 			if tryCount > pq.socket.config.Retries {
 				pq.debug.Log("Packet with ID", packet.id, "discarded after", tryCount)""")
+
+# ---------------------------------------------------------------- C05 (round 2)
+mutant("c05-conn-remove-skipped-for-one-reason", "C05", "C05-D8", "server_socket.go",
+       "		s.nsp.remove(s)\n		s.conn.remove(s)\n", "		s.nsp.remove(s)\n		if reason != ReasonServerNamespaceDisconnect {\n			s.conn.remove(s)\n		}\n")
+mutant("c05-recovery-log-drops-namespace", "C05", "C05-D8", "adapter/adapter_session_aware.go",
+       "			Header:    header,", "			Header:    &parser.PacketHeader{Type: header.Type, ID: header.ID},")
